@@ -7,13 +7,22 @@
   `parse P` = `parse_single_name_into_parts`, `mergeLastFirst` = `NameParts.merge_last_name_first`,
   `CoAuth.split` = `split_multiple_persons_names`, `CoAuth.join` = `" and ".join`,
   `applyOps P ops` = the name middlewares applied in order to one block.
+
+  Second sentence (through the entry points; models in Names/Pipeline.lean, lemmas in
+  Lemmas/NamesPipeline.lean): `parseNames P s` = `parse_string(s, append_middleware=[SeparateCoAuthors(),
+  SplitNameParts()])`, `writeNames P F L` = `write_string(L, prepend_middleware=[MergeNameParts(),
+  MergeCoAuthors()], bibtex_format=F)`; `applyMws` = a stack of name middlewares over a library the way
+  the entry points run it (one middleware over all blocks, `Library(blocks)`, then the next),
+  `applyOpsLib` = the same block by block; `Pipeline.parseDefault` / `writeDefault` = the default stacks
+  (C05), `contentOf` = class, type, key, field keys and values in order (so: the structured names).
 -/
 import BibVerif.Lemmas.NamesMerge
 import BibVerif.Lemmas.NamesJoin
 import BibVerif.Lemmas.NamesMergedOk
 import BibVerif.Lemmas.NamesStack
+import BibVerif.Lemmas.NamesPipeline
 namespace Bib.C14
-open Bib NameP Names CoAuth
+open Bib NameP Names CoAuth Bib.Pipeline Bib.PrintParse
 
 /-- what a name must satisfy to survive `" and ".join` + `split`: not empty, trimmed,
 brace-balanced, not ending in an unescaped backslash (it would escape the blank of ` and `; the
@@ -131,6 +140,181 @@ theorem stack_roundtrip (P : PyChars) (e e1 : Entry)
   · exact (applyOps_two_entry P (.mergeParts true) .mergeCo e1 { e1 with fields := fs2 }).mpr ⟨i1, rfl⟩
   · exact (applyOps_two_entry P .separate .splitParts { e1 with fields := fs2 } e1).mpr ⟨i2, rfl⟩
 
+/-! ### through `parse_string(append_middleware=…)` / `write_string(prepend_middleware=…)` -/
+
+/-- **The entry points run the middlewares one after the other over the whole library, rebuilding the
+`Library` each time; on a library (live keys unique) that is the block-by-block application**: both
+succeed or neither, with the same blocks - the name middlewares never change a key, so `Library(blocks)`
+wraps nothing (C09 / C16 `libraryOf_of_keysUnique`). -/
+theorem mws_blockwise (P : PyChars) (ops : List Op) (L M : List Block) (hu : KeysUnique L) :
+    applyMws P ops L = .ok M ↔ applyOpsLib P ops L = .ok M :=
+  applyMws_ok_iff P ops L M hu
+
+/-- every library `parse_string` returns has unique live keys -/
+theorem parsed_keysUnique (P : PyChars) (s : Str) (L : List Block) (h : parseDefault P s = .ok L) :
+    KeysUnique L :=
+  keysUnique_of_parse s L h
+
+/-- **What the name middlewares do to a block depends only on its content** (type, key, field keys and
+values - not raw text, line numbers, metadata): on two blocks of equal content a stack of them raises on
+both, or yields two blocks of equal content.  (Stated for results that are not error blocks: the
+`MiddlewareErrorBlock` an invalid name produces carries the entry's raw text, which is not content - see
+`Names.applyOps_congr` for the general form and `content_only_failed_cx`.) -/
+theorem content_only (P : PyChars) (ops : List Op) (b b' c : Block) (h : contentOf b = contentOf b')
+    (hc : applyOps P ops b = .ok c) (hl : c.isFailed = false) :
+    ∃ c', applyOps P ops b' = .ok c' ∧ contentOf c' = contentOf c :=
+  applyOps_content_congr P ops b b' c h hc hl
+
+/-- ... for whole libraries -/
+theorem content_only_lib (P : PyChars) (ops : List Op) (L L' M : List Block)
+    (h : L'.map contentOf = L.map contentOf) (hM : applyOpsLib P ops L = .ok M)
+    (hl : ∀ c ∈ M, c.isFailed = false) :
+    ∃ M', applyOpsLib P ops L' = .ok M' ∧ M'.map contentOf = M.map contentOf :=
+  applyOpsLib_content_congr P ops L L' M h hM hl
+
+def cxEntry (raw : Str) (v : Val) : Block :=
+  .live (.entry { ty := ['a'], key := ['k'], line := 0, raw := raw, fields := [⟨"author".toList, v, 1⟩] })
+
+/-- without "not an error block" the statement is false of `contentOf` as C05 defines it: two entries
+with the same content and different raw text, one invalid name -/
+theorem content_only_failed_cx :
+    ¬ (∀ (b b' c : Block), contentOf b = contentOf b' →
+        applyOps asciiChars [.separate, .splitParts] b = .ok c →
+        ∃ c', applyOps asciiChars [.separate, .splitParts] b' = .ok c' ∧ contentOf c' = contentOf c) := by
+  intro h
+  obtain ⟨c', h1, h2⟩ := h (cxEntry ['x'] (.str "Aa,".toList)) (cxEntry ['y'] (.str "Aa,".toList))
+    (.mwError .invalidName (.entry { ty := ['a'], key := ['k'], line := 0, raw := ['x'],
+                                     fields := [⟨"author".toList, .names ["Aa,".toList], 1⟩] }))
+    (by decide +kernel) (by decide +kernel)
+  have : applyOps asciiChars [.separate, .splitParts] (cxEntry ['y'] (.str "Aa,".toList)) =
+      .ok (.mwError .invalidName (.entry { ty := ['a'], key := ['k'], line := 0, raw := ['y'],
+                                           fields := [⟨"author".toList, .names ["Aa,".toList], 1⟩] })) := by
+    decide +kernel
+  rw [this] at h1
+  injection h1 with h1
+  subst h1
+  revert h2
+  decide +kernel
+
+/-- **C14 (the four middlewares over a whole library).**  `stack_roundtrip` for every block: if
+separating + splitting turns the library `L0` into `L1` and the persons of `L1` are good, then merging
+succeeds on `L1` and separating + splitting the merged library gives back exactly `L1`. -/
+theorem lib_roundtrip (P : PyChars) (L0 L1 : List Block)
+    (h1 : applyOpsLib P [.separate, .splitParts] L0 = .ok L1)
+    (hgood : ∀ e, Block.live (.entry e) ∈ L1 → ∀ fld ∈ e.fields, nameFields.contains fld.key = true →
+      ∀ ps, fld.value = .parts ps → ∀ p ∈ ps, p.last ≠ [] ∧ NoOddBS p ∧ NoAndWord (mergeLastFirst p)) :
+    ∃ L2, applyOpsLib P [.mergeParts true, .mergeCo] L1 = .ok L2 ∧
+      applyOpsLib P [.separate, .splitParts] L2 = .ok L1 :=
+  lib_roundtrip_of (fun e e1 h hg => stack_roundtrip P e e1 h hg) L0 L1 h1 hgood
+
+/-- **C14, second sentence, through the model of the whole pipeline (block lists).**  Let `L1` be what
+`SeparateCoAuthors` + `SplitNameParts` make of a library `L0` (what `parse_string(append_middleware=…)`
+adds on top of the default parse), every person in every name field of every entry of `L1` with a
+non-empty last name, no word ending in an odd number of backslashes and no bare word `and` in its merged
+form.  Then `MergeNameParts` + `MergeCoAuthors` succeed on `L1` (giving `L2`), and if `L2` is `Writable`
+(C05: printable so that it reads back - this is where a merged value ending in a backslash, K5, is
+excluded), the default write stack prints it, the default parse stack reads the text back (`L3`),
+`SeparateCoAuthors` + `SplitNameParts` succeed on `L3`, and the result has the content of `L1`: the same
+blocks with the same types, keys, field order and values - the same structured names.  For every
+character table satisfying `PrintOK` and every `FormatOK` format. -/
+theorem pipeline_roundtrip (P : PyChars) (F : Writer.BibtexFormat) (hP : PrintOK P) (hF : FormatOK F)
+    (L0 L1 : List Block)
+    (h1 : applyOpsLib P [.separate, .splitParts] L0 = .ok L1)
+    (hgood : ∀ e, Block.live (.entry e) ∈ L1 → ∀ fld ∈ e.fields, nameFields.contains fld.key = true →
+      ∀ ps, fld.value = .parts ps → ∀ p ∈ ps, p.last ≠ [] ∧ NoOddBS p ∧ NoAndWord (mergeLastFirst p))
+    (hw : ∀ L2, applyOpsLib P [.mergeParts true, .mergeCo] L1 = .ok L2 → Writable P L2) :
+    ∃ L2 t L3 L4, applyOpsLib P [.mergeParts true, .mergeCo] L1 = .ok L2 ∧
+      writeDefault P F L2 = .ok t ∧ parseDefault P t = .ok L3 ∧
+      applyOpsLib P [.separate, .splitParts] L3 = .ok L4 ∧ L4.map contentOf = L1.map contentOf :=
+  pipeline_of (fun e e1 h hg => stack_roundtrip P e e1 h hg) F hP hF L0 L1 h1 hgood hw
+
+/-- **C14, second sentence, at the entry points.**  If `parse_string(s, append_middleware=[Separate…,
+Split…])` returns the library `L1` whose persons are good, and the library the two merge middlewares make
+of it is `Writable`, then `write_string(L1, prepend_middleware=[MergeNameParts, MergeCoAuthors], F)`
+returns a text `t`, and `parse_string(t, append_middleware=[Separate…, Split…])` returns a library with
+the content of `L1`.  Here the middlewares run as the entry points run them (`applyMws`: one middleware
+over the whole library, `Library(blocks)`, then the next). -/
+theorem entrypoint_roundtrip (P : PyChars) (F : Writer.BibtexFormat) (hP : PrintOK P) (hF : FormatOK F)
+    (s : Str) (L1 : List Block) (h1 : parseNames P s = .ok L1)
+    (hgood : ∀ e, Block.live (.entry e) ∈ L1 → ∀ fld ∈ e.fields, nameFields.contains fld.key = true →
+      ∀ ps, fld.value = .parts ps → ∀ p ∈ ps, p.last ≠ [] ∧ NoOddBS p ∧ NoAndWord (mergeLastFirst p))
+    (hw : ∀ L2, applyMws P [.mergeParts true, .mergeCo] L1 = .ok L2 → Writable P L2) :
+    ∃ t L4, writeNames P F L1 = .ok t ∧ parseNames P t = .ok L4 ∧ L4.map contentOf = L1.map contentOf := by
+  obtain ⟨t, L4, g1, g2, g3, _⟩ :=
+    entrypoint_of (fun e e1 h hg => stack_roundtrip P e e1 h hg) F hP hF s L1 h1 hgood hw
+  exact ⟨t, L4, g1, g2, g3⟩
+
+/-- **The clause as the property words it** - no condition on what the merged library looks like, only
+"valid names" (no failed block in `L1`) and the conditions of the first sentence.  NOT provable: it is
+false of model and code alike (`pipeline_roundtrip_full_cx` = known finding K5: the merged value ends in
+a backslash; `merged_blockstart_cx` = K6: merging brings `@word` and `{` together).  What
+`entrypoint_roundtrip` adds is the hypothesis `Writable` of the merged library; what is missing between
+the two is a characterisation of that hypothesis in terms of the source document (when is every merged
+name value `CleanVal`?), which is not attempted: the merged value is a rearrangement of the words of the
+source value with every separator replaced by a blank, and K6 shows that `TextOK` of the source value
+is not enough. -/
+def pipeline_roundtrip_full : Prop :=
+  ∀ (P : PyChars) (F : Writer.BibtexFormat) (s : Str) (L1 : List Block), PrintOK P → FormatOK F →
+    parseNames P s = .ok L1 → (∀ b ∈ L1, b.isFailed = false) →
+    (∀ e, Block.live (.entry e) ∈ L1 → ∀ fld ∈ e.fields, nameFields.contains fld.key = true →
+      ∀ ps, fld.value = .parts ps → ∀ p ∈ ps, p.last ≠ [] ∧ NoOddBS p ∧ NoAndWord (mergeLastFirst p)) →
+    ∃ t L4, writeNames P F L1 = .ok t ∧ parseNames P t = .ok L4 ∧ L4.map contentOf = L1.map contentOf
+
+def k5Doc : Str := "@a{k, author = {A\\\\\\\\ B}}".toList
+
+/-- what `parse_string(k5Doc, append_middleware=[Separate…, Split…])` returns -/
+def k5Lib : List Block :=
+  [.live (.entry { ty := ['a'], key := ['k'], line := 0, raw := k5Doc,
+                   fields := [⟨"author".toList, .parts [{ first := ["A\\\\\\\\".toList], last := ["B".toList] }], 0⟩],
+                   md := [(Enclosing.REMOVED_ENCLOSING_KEY, .dict [("author".toList, "{".toList)])] })]
+
+def k5Written : Str := "@a{k,\n\tauthor = {B, A\\\\\\\\}\n}\n".toList
+
+/-- **K5 (known finding): `Writable` of the merged library cannot be dropped.**  `author = {A\\\\ B}`
+(first name `A\\\\`: an even number of backslashes, so every hypothesis of the first sentence holds)
+merges to `B, A\\\\`; the writer prints `author = {B, A\\\\}`, whose closing brace the splitter reads as
+escaped: the written document re-parses to one failed block. -/
+theorem pipeline_roundtrip_full_cx : ¬ pipeline_roundtrip_full := by
+  intro h
+  have h1 : parseNames asciiChars k5Doc = .ok k5Lib := by decide +kernel
+  obtain ⟨t, L4, g1, g2, g3⟩ := h asciiChars {} k5Doc k5Lib printOK_ascii ⟨by decide, by decide⟩ h1
+    (by decide) (goodLib_of_blocks _ (by decide +kernel))
+  have e1 : writeNames asciiChars {} k5Lib = .ok k5Written := by decide +kernel
+  rw [e1] at g1
+  injection g1 with g1
+  subst g1
+  have e2 : parseNames asciiChars k5Written = .ok [.failed .eof 0 k5Written] := by decide +kernel
+  rw [e2] at g2
+  injection g2 with g2
+  subst g2
+  revert g3
+  decide +kernel
+
+def k6Doc : Str := "@a{k, author = {a@b~{c} D}}".toList
+
+/-- what `parse_string(k6Doc, append_middleware=[Separate…, Split…])` returns: one person, von `a@b`,
+last `{c} D` -/
+def k6Lib : List Block :=
+  [.live (.entry { ty := ['a'], key := ['k'], line := 0, raw := k6Doc,
+                   fields := [⟨"author".toList, .parts [{ von := ["a@b".toList], last := ["{c}".toList, "D".toList] }], 0⟩],
+                   md := [(Enclosing.REMOVED_ENCLOSING_KEY, .dict [("author".toList, "{".toList)])] })]
+
+def k6Written : Str := "@a{k,\n\tauthor = {a@b {c} D}\n}\n".toList
+
+/-- **K6 (known finding): a second way `Writable` of the merged library fails.**  Merging normalises
+every separator between words to one blank.  In `author = {a@b~{c} D}` the tie keeps `@b` and `{` apart;
+the merged value `a@b {c} D` contains the block start `@b {` (C10's K2), so the written document - whose
+source contained no block start inside a value - re-parses to a failed block, an entry `@b{c}` and a
+free-text comment.  All hypotheses of the first sentence hold. -/
+theorem merged_blockstart_cx :
+    parseNames asciiChars k6Doc = .ok k6Lib ∧ (∀ b ∈ k6Lib, b.isFailed = false) ∧
+    (∀ e, Block.live (.entry e) ∈ k6Lib → ∀ fld ∈ e.fields, nameFields.contains fld.key = true →
+      ∀ ps, fld.value = .parts ps → ∀ p ∈ ps, p.last ≠ [] ∧ NoOddBS p ∧ NoAndWord (mergeLastFirst p)) ∧
+    writeNames asciiChars {} k6Lib = .ok k6Written ∧
+    (parseNames asciiChars k6Written).toOption.map (fun L => L.map contentOf) =
+      some [.failed "@a{k,\n\tauthor = {a".toList, .entry ['b'] ['c'] [], .impl "D}\n}".toList] :=
+  ⟨by decide +kernel, by decide, goodLib_of_blocks _ (by decide +kernel), by decide +kernel, by decide +kernel⟩
+
 /-- **K3 (known finding): the `NoAndWord` hypothesis cannot be dropped.**  `X and and B and C`
 separates into three valid names with non-empty last names and no backslashes; the middle one is
 first=`and`, last=`B`, merged to `B, and`; the joined list `X and B, and and C` no longer splits
@@ -180,6 +364,103 @@ example : applyOps asciiChars [.separate, .splitParts] (.live (.entry
 example : parseAll asciiChars (CoAuth.split "Aa Bb and cc Dd, Ee".toList) =
     .ok [{ first := ["Aa".toList], last := ["Bb".toList] },
          { first := ["Ee".toList], von := ["cc".toList], last := ["Dd".toList] }] := by
+  decide +kernel
+
+/-! ### non-vacuity of `pipeline_roundtrip` / `entrypoint_roundtrip` -/
+
+/-- a document: an entry whose author field holds two persons (the second with a von part `de` and a
+braced last name `{La Rue}`), a title containing ` and `, and an explicit comment -/
+def exDoc : Str :=
+  "@a{k, author = {Aa Bb and de {La Rue}, Ee}, t = {T and U}}\n@comment{c}".toList
+
+/-- the library `parse_string(exDoc)` returns, with `v` as the value of the author field -/
+def exLibOf (v : Val) : List Block :=
+  [.live (.entry { ty := "a".toList, key := "k".toList, line := 0,
+                   raw := "@a{k, author = {Aa Bb and de {La Rue}, Ee}, t = {T and U}}".toList,
+                   fields := [⟨"author".toList, v, 0⟩, ⟨"t".toList, .str "T and U".toList, 0⟩],
+                   md := [(Enclosing.REMOVED_ENCLOSING_KEY,
+                           .dict [("author".toList, "{".toList), ("t".toList, "{".toList)])] }),
+   .live (.expl "c".toList 1 "@comment{c}".toList [])]
+
+def exPersons : List NameParts :=
+  [{ first := ["Aa".toList], last := ["Bb".toList] },
+   { first := ["Ee".toList], von := ["de".toList], last := ["{La Rue}".toList] }]
+
+def exMerged : Str := "Bb, Aa and de {La Rue}, Ee".toList
+
+theorem ex_split : applyOpsLib asciiChars [.separate, .splitParts]
+    (exLibOf (.str "Aa Bb and de {La Rue}, Ee".toList)) = .ok (exLibOf (.parts exPersons)) := by
+  decide +kernel
+
+theorem ex_parseNames : parseNames asciiChars exDoc = .ok (exLibOf (.parts exPersons)) := by
+  decide +kernel
+
+theorem ex_merge : applyOpsLib asciiChars [.mergeParts true, .mergeCo] (exLibOf (.parts exPersons)) =
+    .ok (exLibOf (.str exMerged)) := by
+  decide +kernel
+
+theorem ex_mergeMws : applyMws asciiChars [.mergeParts true, .mergeCo] (exLibOf (.parts exPersons)) =
+    .ok (exLibOf (.str exMerged)) :=
+  (mws_blockwise asciiChars _ _ _ ⟨by decide, by decide⟩).mpr ex_merge
+
+theorem ex_good : ∀ e, Block.live (.entry e) ∈ exLibOf (.parts exPersons) → ∀ fld ∈ e.fields,
+    nameFields.contains fld.key = true → ∀ ps, fld.value = .parts ps →
+    ∀ p ∈ ps, p.last ≠ [] ∧ NoOddBS p ∧ NoAndWord (mergeLastFirst p) :=
+  goodLib_of_blocks _ (by decide +kernel)
+
+theorem simple_of_all (t : Str) (h : t.all simpleChar = true) : SimpleText t :=
+  fun c hc => List.all_eq_true.mp h c hc
+
+/-- the merged author value `Bb, Aa and de {La Rue}, Ee` can be written between braces: its tokens
+(text, commas, one brace group) are balanced and it does not end in a backslash -/
+theorem ex_merged_clean : CleanVal asciiChars exMerged := by
+  apply cleanVal_of_lex (by decide) exMerged ?_ (by decide)
+  have : lexFrom asciiChars false exMerged =
+      [.text "Bb".toList, .mark .comma [','], .text " Aa and de ".toList, .mark .lbrace ['{'],
+       .text "La Rue".toList, .mark .rbrace ['}'], .mark .comma [','], .text " Ee".toList] := by
+    decide +kernel
+  rw [this]
+  refine IsBal.plain _ _ rfl (IsBal.plain _ _ rfl (IsBal.plain _ _ rfl ?_))
+  exact IsBal.grp ['{'] ['}'] [.text "La Rue".toList] [.mark .comma [','], .text " Ee".toList]
+    (IsBal.plain _ _ rfl IsBal.nil) (IsBal.plain _ _ rfl (IsBal.plain _ _ rfl IsBal.nil))
+
+/-- the merged library is `Writable` -/
+theorem ex_writable : Writable asciiChars (exLibOf (.str exMerged)) := by
+  refine ⟨?_, by decide, by decide, by simp [exLibOf, NoAdjImpl, isImpl]⟩
+  intro b hb
+  simp only [exLibOf, List.mem_cons, List.not_mem_nil, or_false] at hb
+  rcases hb with rfl | rfl
+  · refine ⟨by decide, by decide, by decide, by decide, by decide, by decide,
+      simple_of_all _ (by decide), by decide, ?_, by decide, Or.inr ⟨_, rfl⟩⟩
+    intro f hf
+    simp only [List.mem_cons, List.not_mem_nil, or_false] at hf
+    rcases hf with rfl | rfl
+    · exact ⟨simple_of_all _ (by decide), by decide, _, rfl, PrintParse.encVal_of_clean ex_merged_clean⟩
+    · exact ⟨simple_of_all _ (by decide), by decide, _, rfl,
+        PrintParse.encVal_of_clean (cleanVal_simple _ (simple_of_all _ (by decide)))⟩
+  · exact ⟨cleanVal_simple _ (simple_of_all _ (by decide)), by decide⟩
+
+/-- all hypotheses of `pipeline_roundtrip` hold for the library of the example document -/
+example : PrintOK asciiChars ∧ FormatOK ({} : Writer.BibtexFormat) ∧
+    applyOpsLib asciiChars [.separate, .splitParts] (exLibOf (.str "Aa Bb and de {La Rue}, Ee".toList)) =
+      .ok (exLibOf (.parts exPersons)) ∧
+    (∀ L2, applyOpsLib asciiChars [.mergeParts true, .mergeCo] (exLibOf (.parts exPersons)) = .ok L2 →
+      Writable asciiChars L2) :=
+  ⟨printOK_ascii, ⟨by decide, by decide⟩, ex_split, fun L2 h => by
+    rw [ex_merge] at h; injection h with h; subst h; exact ex_writable⟩
+
+/-- ... and of `entrypoint_roundtrip` for the document itself; so its conclusion holds: the document
+`write_string(prepend_middleware=…)` produces for the parsed library re-parses, with the split
+middlewares appended, to the same structured names -/
+example : ∃ t L4, writeNames asciiChars {} (exLibOf (.parts exPersons)) = .ok t ∧
+    parseNames asciiChars t = .ok L4 ∧
+    L4.map contentOf = (exLibOf (.parts exPersons)).map contentOf :=
+  entrypoint_roundtrip asciiChars {} printOK_ascii ⟨by decide, by decide⟩ exDoc _ ex_parseNames ex_good
+    (fun L2 h => by rw [ex_mergeMws] at h; injection h with h; subst h; exact ex_writable)
+
+/-- the text, by kernel evaluation of the model -/
+example : writeNames asciiChars {} (exLibOf (.parts exPersons)) = .ok
+    "@a{k,\n\tauthor = {Bb, Aa and de {La Rue}, Ee},\n\tt = {T and U}\n}\n\n\n@comment{c}\n".toList := by
   decide +kernel
 
 end Bib.C14
